@@ -364,7 +364,7 @@ def split_resp(resp):
 
 def correspondence(ctx):
     basecorr.run(ctx)
-    cases = list(WITNESS_CASES) + gen_cases(ctx, "corr", ctx.budget(500, 20000), malformed_rate=0.15)
+    cases = list(WITNESS_CASES) + gen_cases(ctx, "corr", ctx.budget(500, 5000), malformed_rate=0.15)
     reqs_c = ["rrule.construct " + wire(c) for c in cases]
     reqs_i = ["rrule.iter %s %d %d" % (wire(c), c["n"], FUEL[c["freq"]]) for c in cases]
     got_c = ctx.driver(reqs_c)
@@ -399,7 +399,7 @@ def correspondence(ctx):
             if mst.startswith("stop_") or mst.startswith("err_"):
                 ctx.count("corr_end_" + mst)
     # the spec's window enumeration against its plain definition
-    sc = [c for c in gen_cases(ctx, "specself", ctx.budget(150, 2000), freqs=[0, 1, 2, 3]) if c["interval"] <= 30]
+    sc = [c for c in gen_cases(ctx, "specself", ctx.budget(150, 1500), freqs=[0, 1, 2, 3]) if c["interval"] <= 30]
     if sc:
         NP = 14
         r1 = ctx.driver(["rrule.occ %s %d" % (wire(c), NP) for c in sc])
@@ -433,6 +433,8 @@ WITNESS_CASES = [
     # D-C01d
     {"freq": 0, "interval": 1, "wkst": None, "dtstart": [2032, 1, 1, 0, 0, 0, 0], "kind": "naive", "byeaster": [-100], "n": 4},
     {"freq": 0, "interval": 1, "wkst": None, "dtstart": [2032, 1, 1, 0, 0, 0, 0], "kind": "naive", "byeaster": [300], "n": 4},
+    # D-C01f
+    {"freq": 0, "interval": 1, "wkst": 2, "dtstart": [1, 12, 31, 0, 0, 0, 0], "kind": "naive", "byweekno": [26], "count": 1, "n": 3},
     # D-C01e
     {"freq": 2, "interval": 1, "wkst": None, "dtstart": [2020, 1, 1, 0, 0, 0, 0], "kind": "naive", "byweekday": [[0, 0], [4, 0]], "bysetpos": [1], "n": 5},
 ]
@@ -442,14 +444,27 @@ def parse_item(s):
     return tuple(int(x) for x in s.split("."))
 
 
+def unknown_violations(ctx):
+    return [v for v in ctx.violations if not any(_safe(k, v) for k in KNOWN.values())]
+
+
+def _safe(pred, v):
+    try:
+        return bool(pred(v))
+    except Exception:
+        return False
+
+
 def oracle(ctx):
     cases = [dict(c) for c in WITNESS_CASES]
-    for m in ctx.mismatches:
-        pass
-    cases += [c for c in getattr(ctx, "corr_bad", [])]
-    cases += gen_cases(ctx, "oracle", ctx.budget(700, 30000))
+    cases += [c for c in getattr(ctx, "corr_bad", [])]          # inputs on which model and implementation differed
     evaluate(ctx, cases)
-    ctx.sample({"note": "see samples above; cap-skipped cases are counted in histogram.oracle_cap_skipped"}, cap=13)
+    rng_cases = gen_cases(ctx, "oracle", ctx.budget(700, 9000))
+    for i in range(0, len(rng_cases), 500):
+        evaluate(ctx, rng_cases[i:i + 500])
+        if len(unknown_violations(ctx)) >= 3:
+            ctx.note("oracle stopped after %d generated rules: failing inputs found" % (i + 500))
+            break
 
 
 def evaluate(ctx, cases):
@@ -638,7 +653,14 @@ def k_c01e(v):
     return False
 
 
-KNOWN = {"D-C01a": k_c01a, "D-C01c": k_c01c, "D-C01d": k_c01d, "D-C01e": k_c01e}
+def k_c01f(v):
+    r, d = _rule(v), _diff(v)
+    wn = r.get("byweekno") or []
+    return (r["dtstart"][0] == 1 and bool(wn) and -1 not in wn and (r["wkst"] or 0) in (1, 2, 3)
+            and d.get("kind") == "exception" and d.get("exc") == "ValueError")
+
+
+KNOWN = {"D-C01f": k_c01f, "D-C01a": k_c01a, "D-C01c": k_c01c, "D-C01d": k_c01d, "D-C01e": k_c01e}
 
 
 def replay(ctx, payload):
